@@ -1,3 +1,4 @@
+pub mod btor2_ref;
 pub mod bv;
 pub mod expr_eval;
 pub mod sim;
